@@ -69,11 +69,211 @@ def obligations(tier):
 
 
 MANIFEST_ENTRY = {
-    'engine': 'crosshair',
+    'engine': 'crosshair+sched',
     'technique': 'bounded symbolic execution (CrossHair/z3) of the real ConsumerMdib report handlers and reload_all with unconstrained '
-                 'symbolic version counters per delivered report (fault schedule = solver variables)',
+                 'symbolic version counters per delivered report (fault schedule = solver variables); reload_all vs. concurrently '
+                 'arriving report threads: recorded templates + SMT over interleavings with read-value consistency, gated replay',
     'text': 'Two (plus one replayed) reports with unconstrained MdibVersion/StateVersion/ids cover every drop, duplication and '
             're-ordering of any two reports of any provider history; "Confirmed over all paths" = no regression for ALL version values.',
     'note': 'Bounded to 2-3 deliveries per obligation, 4 state handles; XML parsing and the id-change notification thread are stubbed; '
             'functional-provider assumption on report content.',
 }
+
+
+# ---------------------------------------------------------------- E3: reload_all vs. a concurrently arriving report
+
+E3_STUBS = ['ConsumerMdib with a stub client; GetMdib answered by a stub service client (concrete versions)',
+            '_buffered_notifications_lock and mdib_lock replaced by recording wrappers; reads / writes of ConsumerMdib._state and '
+            'uses of the notification buffer (append, iterate, drain) logged by a recording subclass / list proxy',
+            'the report thread is recorded on the path it takes while the MDIB is initializing; a schedule in which one of its '
+            'recorded reads of _state would observe another value is excluded (the thread would take a path that was not recorded)']
+
+
+def _e3_obligations(tier):
+    obs = []
+    for n in ((1,) if tier == 'quick' else (1, 2)):
+        obs.append(Ob(f'C06.e3.reload_vs_report.r{n}', 'checks.C06', 'ob_reload_race', kind='py', timeout=240, params={'reports': n},
+                      functions=['sdc11073.mdib.consumermdib.ConsumerMdib.reload_all',
+                                 'sdc11073.mdib.consumermdib.ConsumerMdib._pre_check_report_ok',
+                                 'sdc11073.mdib.consumermdib.ConsumerMdib.process_incoming_metric_states_report'],
+                      stubs=E3_STUBS,
+                      bounds=f'1 reload_all thread x {n} report thread(s); all interleavings of the recorded lock / _state / buffer events '
+                             'that are consistent with the recorded _state values',
+                      claim='no interleaving appends a report to the notification buffer after reload_all has drained it (report lost)'))
+    return obs
+
+
+_orig_obligations = obligations
+
+
+def obligations(tier):  # noqa: F811
+    return _orig_obligations(tier) + _e3_obligations(tier)
+
+
+class _BufProxy(list):
+    def __init__(self, rec):
+        super().__init__()
+        self._rec = rec
+
+    def append(self, x):
+        self._rec.event('buf', 'append')
+        super().append(x)
+
+    def __iter__(self):
+        self._rec.event('buf', 'iter')
+        return super().__iter__()
+
+    def __delitem__(self, k):
+        self._rec.event('buf', 'drain')
+        super().__delitem__(k)
+
+
+def _e3_build():
+    import types
+    from harness import C06 as h
+    from harness import mdibkit as k
+    from sdc11073.mdib.consumermdib import ConsumerMdibState
+    from sdc11073.mdib.mdibbase import MdibVersionGroup
+    from vf import sched
+    rec = sched.Recorder()
+    cm = k.mk_consumer(0, containers=h._small_containers(False))
+    base = type(cm)
+
+    class Rec(base):
+        def __getattribute__(self, name):
+            v = base.__getattribute__(self, name)
+            if name == '_state':
+                rec.event('read', '_state=' + v.name)
+            return v
+
+        def __setattr__(self, name, value):
+            if name == '_state':
+                rec.event('write', '_state=' + value.name)
+            base.__setattr__(self, name, value)
+    Rec.__name__ = base.__name__
+    cm.__class__ = Rec
+    object.__setattr__(cm, 'mdib_lock', sched.RecLock(rec, 'mdib_lock', base.__getattribute__(cm, 'mdib_lock')))
+    object.__setattr__(cm, '_buffered_notifications_lock',
+                       sched.RecLock(rec, 'buf_lock', base.__getattribute__(cm, '_buffered_notifications_lock')))
+    object.__setattr__(cm, '_buffered_notifications', _BufProxy(rec))
+    object.__setattr__(cm, '_state', ConsumerMdibState.invalid)
+
+    class Svc:
+        def get_mdib(self):
+            ds = h._small_containers(False)
+            k.set_source_mds(ds)
+            sts = k.mk_states(cm, ds)
+            for st in sts:
+                if st.DescriptorHandle == 'm0':
+                    st.StateVersion = 5
+            ctx = h._ctx_state(cm, 5, 'getmdib', descr=[d for d in ds if d.Handle == 'pc0'][0])
+            return types.SimpleNamespace(result=(ds, sts + [ctx]), mdib_version_group=MdibVersionGroup(10, k.SEQ, 1))
+    svc = Svc()
+    object.__setattr__(cm, '_sdc_client', types.SimpleNamespace(client=lambda name: svc, sdc_definitions=k.StubClient.sdc_definitions))
+    return rec, cm
+
+
+def _e3_report(cm, i):
+    from harness import C06 as h
+    rep, vg, _action = h._report(cm, 0, 20 + i, 6 + i, f'r{i}', False, False)
+    return lambda: cm.process_incoming_metric_states_report(vg, rep)
+
+
+def _state_reads_consistent(z3, templates, order):
+    """Every recorded read of _state must observe the value it observed when it was recorded."""
+    writes = [(lab, i, w.split('=')[1]) for lab, tpl in templates.items() for i, (kd, w) in enumerate(tpl)
+              if kd == 'write' and w.startswith('_state=')]
+    cons = []
+    for lab, tpl in templates.items():
+        for i, (kd, w) in enumerate(tpl):
+            if kd != 'read' or not w.startswith('_state='):
+                continue
+            val = w.split('=')[1]
+            r = order[(lab, i)]
+            opts = []
+            if val == 'invalid':      # initial value
+                opts.append(z3.And([order[(wl, wi)] > r for wl, wi, _ in writes]))
+            for wl, wi, wv in writes:
+                if wv != val:
+                    continue
+                wo = order[(wl, wi)]
+                opts.append(z3.And([wo < r] + [z3.Or(order[(ol, oi)] < wo, order[(ol, oi)] > r)
+                                                for ol, oi, _ in writes if (ol, oi) != (wl, wi)]))
+            cons.append(z3.Or(opts) if opts else z3.BoolVal(False))
+    return cons
+
+
+def ob_reload_race(ctx):
+    import time
+    import z3
+    from sdc11073.mdib.consumermdib import ConsumerMdibState
+    from vf import sched
+    t0 = time.time()
+    n = ctx.params['reports']
+    rec, cm = _e3_build()
+    templates = {'L': rec.record(cm.reload_all)}
+    # record the report thread on the path it takes while the MDIB is initializing
+    for i in range(n):
+        object.__setattr__(cm, '_state', ConsumerMdibState.initializing)
+        templates[f'R{i}'] = rec.record(_e3_report(cm, i))
+    for lab, tpl in templates.items():
+        if lab != 'L' and ('buf', 'append') not in tpl:
+            return {'verdict': 'error', 'reason': f'recorded report thread did not buffer its report: {tpl}'}
+    if ('buf', 'drain') not in templates['L']:
+        return {'verdict': 'error', 'reason': f'recorded reload_all never drained the buffer: {templates["L"]}'}
+    s, order = sched.encode(templates, locks=('mdib_lock', 'buf_lock'))
+    s.add(*_state_reads_consistent(z3, templates, order))
+    queries = 1
+    if str(s.check()) != 'sat':
+        return {'verdict': 'error', 'reason': 'base constraints (incl. recorded _state values) unsatisfiable'}
+    drain = sched.idx_of(templates['L'], 'buf', 'drain')[-1]
+    viol = [order[(lab, sched.idx_of(tpl, 'buf', 'append')[0])] > order[('L', drain)] for lab, tpl in templates.items() if lab != 'L']
+    s.add(z3.Or(viol))
+    sample = {'templates': {k: [f'{a}:{b}' for a, b in v] for k, v in templates.items()}}
+    spurious = 0
+    while True:
+        r = str(s.check())
+        queries += 1
+        if r == 'unsat':
+            return {'verdict': 'confirmed', 'reach': True, 'queries': queries, 'solver_s': round(time.time() - t0, 2),
+                    'engine': 'sched(z3 Int order variables + read-value consistency)', 'sample': sample,
+                    'detail': f'{sum(len(v) for v in templates.values())} events; {spurious} spurious models refuted by replay'}
+        if r != 'sat':
+            return {'verdict': 'inconclusive', 'reason': 'solver returned ' + r}
+        model = s.model()
+        schedule = sched.schedule_from_model(model, order)
+        label, detail = _e3_replay(n, schedule)
+        if label != 'ok':
+            return {'verdict': 'counterexample', 'label': label, 'replayed': True, 'queries': queries, 'detail': detail,
+                    'witness': {'reports': n, 'schedule': [list(x) for x in schedule]}, 'sample': sample,
+                    'engine': 'sched(z3 Int order variables + read-value consistency)'}
+        spurious += 1
+        if spurious >= 12 or time.time() - t0 > ctx.timeout * 0.8:
+            return {'verdict': 'inconclusive', 'queries': queries,
+                    'reason': f'{spurious} models did not reproduce on the real code; budget exhausted'}
+        s.add(z3.Or([order[k] != model[order[k]] for k in order]))
+
+
+def _e3_replay(n, schedule):
+    rec, cm = _e3_build()
+    acts = {'L': cm.reload_all}
+    for i in range(n):
+        acts[f'R{i}'] = _e3_report(cm, i)
+    rec.start_replay(schedule)
+    results, errors = rec.run_threads(acts)
+    if rec.failed or errors:
+        return 'ok', f'replay could not follow the schedule ({rec.failed or errors})'
+    left = list.__len__(cm._buffered_notifications)
+    if left:
+        return 'report-lost-in-buffer-after-reload', \
+            f'{left} delivered report(s) still sit in the notification buffer after reload_all finished (state {cm._state.name}); ' \
+            f'consumer MdibVersion {cm.mdib_version}'
+    if cm.mdib_version != 20 + n - 1 and cm.mdib_version < 20:
+        return 'report-neither-buffered-nor-applied', f'consumer MdibVersion {cm.mdib_version}, report had 20'
+    return 'ok', ''
+
+
+def replay(ctx):
+    w = ctx.params['witness']
+    label, detail = _e3_replay(w['reports'], [tuple(x) for x in w['schedule']])
+    return {'verdict': 'counterexample' if label != 'ok' else 'confirmed', 'label': label, 'detail': detail}
